@@ -246,7 +246,10 @@ def run(repo: Repo, ctx) -> None:
            'try_type_rewrite registers under a different key', ttr.loc,
            sample='(stype, skip_subtypes)')
     # skip_subtypes of a TypeRoot is carried to the IR typeref walk
-    ok = 'skip_subtypes = expr.skip_subtypes' in norm(ns.node)
+    ok = any(isinstance(a, ast.Assign) and isinstance(a.value, ast.Attribute)
+             and a.value.attr == 'skip_subtypes'
+             and norm(a.targets[0]) in norm(rk[0].value if rk else a.value)
+             for a in ast.walk(ns.node))
     ctx.ob('C07.R3', 'setgen.new_set:skip_subtypes-source', ok,
            'skip_subtypes is not taken from the TypeRoot expression',
            ns.loc, sample='skip_subtypes = expr.skip_subtypes')
